@@ -33,8 +33,9 @@ def gen_sched_case(rng, tier, kind=None, mode=None, static=False, many_to_one=No
         case['fmap'] = None
         classes = flows
     if kind == 'SP':
-        # SP's table is per flow; its flow2class only names the key under which the priority is noted on the packet
-        case['table'] = [[f, rng.choice([1, 1, 2, 3, 5, 10, 0.5, 2.5])] for f in flows]
+        # SP's table is keyed by class like the tables of the other schedulers (one table serves any server of a
+        # FairPacketSwitch); a flow's priority is the priority of its class
+        case['table'] = [[c, rng.choice([1, 1, 2, 3, 5, 10, 0.5, 2.5])] for c in classes]
         rng.shuffle(case['table'])
     elif kind == 'WFQ' and rng.random() < 0.3:
         # fractional weights (shares that sum to at most 1) are as legal as integers
@@ -476,19 +477,19 @@ def check_sp(H, case, pid):
             continue
         s, k = a['start'], a['k']
         w = waiting_at(H, s, k)
-        if len(set(prio.get(x['flow'], 0) for x in w)) >= 2:
+        if len(set(prio.get(x['cls'], 0) for x in w)) >= 2:
             stats['ge2_levels_backlogged'] = 1
         if any(x['t'] > (a['start']) for x in []):
             pass
         for x in w:
-            if prio.get(x['flow'], 0) > prio.get(a['flow'], 0) and not close(x['t'], s, H.mode):
-                viol.append((pid + '.1', 'SP started %s (flow %r, priority %r) at t=%r while %s of flow %r (priority %r), '
+            if prio.get(x['cls'], 0) > prio.get(a['cls'], 0) and not close(x['t'], s, H.mode):
+                viol.append((pid + '.1', 'SP started %s (class %r, priority %r) at t=%r while %s of class %r (priority %r), '
                              'which arrived at %r, was waiting' %
-                             (a['pkt'], a['flow'], prio.get(a['flow']), s, x['pkt'], x['flow'], prio.get(x['flow']), x['t'])))
+                             (a['pkt'], a['cls'], prio.get(a['cls']), s, x['pkt'], x['cls'], prio.get(x['cls']), x['t'])))
                 return viol, stats
         # a more urgent arrival during a transmission
         for x in H.arr:
-            if a['start'] < x['t'] < a['out'][1] and prio.get(x['flow'], 0) > prio.get(a['flow'], 0):
+            if a['start'] < x['t'] < a['out'][1] and prio.get(x['cls'], 0) > prio.get(a['cls'], 0):
                 stats['urgent_arrival_during_lower_transmission'] = 1
     return viol, stats
 
